@@ -161,6 +161,7 @@ func (m *machine) cutPrefix(s, p *Term) (*Term, bool) {
 	}
 	r := m.freshStr("tp")
 	m.assume(mkStrEq(s, mkConcat(p, r)))
+	m.noteFold(mkConcat(p, r), s)
 	m.memo[mk] = r
 	return r, true
 }
